@@ -41,10 +41,10 @@ CHECKS["C16"] = dict(category="proof",
    technique="Lean theorem by mutual structural induction over Data trees about a hand model of getDataAsLua/getLuaAsData, tied by differential round trips through a real lua-datamodel interpreter",
    text="lua_roundtrip is proved for every unambiguous value with no bound on nesting or array length (the array proof is the numeric-order invariant of the repaired getLuaAsData); the model is compared with the compiled datamodel on values entering by assignment, as event payload and as <send> parameter and read back by evalAsData / _event.data; assignments to the five system variables are exercised on the real interpreter.",
    design_ref="6 / C16", note="Trusted: Lean kernel; hand model Model.LuaMarshal; liblua/LuaBridge; libstdc++ integer formatting (integers are carried as canonical decimal text, <= 15 digits); floats excluded; INTERPRETED atoms that are Lua source are outside the fragment.")
-CHECKS["C05"] = dict(category="exploration",
-   technique="bit-for-bit differential of the DOM annotation left by ChartToC::prepare against the Lean model Model.Tables; Lean theorems about the modelled relations (symmetry of conflicts, exit set below domain)",
-   text="Model.Tables recomputes documentOrder/parent/childBools/ancBools/completionBools (incl. the history 'covered' bookkeeping)/exitSetBools/conflictBools/targetBools by the same walks as Predicates.cpp; compared on every state and transition of random charts up to 24 states. Structural theorems proved so far are properties of the modelled relations, not yet the equality with the interval characterisation / Appendix D sets, hence 'exploration'.",
-   design_ref="6 / C05", note="Trusted: hand model Model.Tables and the flatten model of resortStates/numbering; the text of the emitted C/Promela/VHDL is compared by C04/C06/C18.")
+CHECKS["C05"] = dict(category="proof",
+   technique="Lean theorems relating the hand model of ChartToC::prepare / Predicates.cpp (Model.Tables) to Appendix D's definitions (Spec.W3C) on every coherent chart; the model is tied to the compiled transformer by a bit-for-bit differential of the DOM annotation, and the theorems' decidable hypothesis is evaluated on every generated chart",
+   text="Proved for every coherent chart (any size, any nesting): the embedded transition domain is Appendix D's getTransitionDomain (raw or effective targets, any history), the embedded exit set is exactly what computeExitSet leaves in every configuration, the conflict table contains Appendix D's conflicts and is exact for transitions of different regions, the ancestor table is isDescendant; conflicts symmetric. Partial: transitions into history states are outside the theorems (the embedded domain is computed from the pseudo-state: recorded finding hist-domain); default/history completion, document and post-fix order, children and target sets have no specification beyond Model.Tables/flatten (shared with the Appendix D oracle of C01) and are covered by the bit-for-bit comparison with the compiled code only.",
+   design_ref="6 / C05", note="Trusted: hand model Model.Tables and the flatten model of resortStates/numbering (tied per run to the compiled annotation); Coherent is checked at run time on the generated charts, not proved of flatten; the text of the emitted C/Promela/VHDL is compared by C04/C06/C18.")
 CHECKS["C19"] = dict(category="exploration",
    technique="Lean model of the validator's fatal structural checks compared class-by-class with Interpreter::validate() on valid and corrupted documents; accepted documents are interpreted and every configuration decided by Spec.Legal; crash-freedom on random SCXML-vocabulary XML",
    text="Soundness: documents validate() accepts are run through the interpreter (no crash, only legal configurations). Completeness: generated valid documents (also with id-less states, null and lua datamodels) must be free of fatal issues and syntax-error warnings. Totality: corrupted documents and random element soup. The Lean model of the fatal checks agrees with the code on all classes; theorems about it are still to come, hence 'exploration'.",
